@@ -1,4 +1,39 @@
 // harness TU for SE3 (double)
 #define HX_HAS_ROTATION 1
 #include "generic.h"
-namespace hx { void run_SE3(const Req& r, Resp& R) { run<manif::SE3d>(r, R); } }
+namespace hx {
+template <> struct Extra<manif::SE3d> {
+  static bool run(const Req& r, Resp& R) {
+    const auto& a = r.a;
+    using G = manif::SE3d;
+    if (r.op == "ctor_xyzrpy" && a.size() == 6) { G g(a[0], a[1], a[2], a[3], a[4], a[5]); pushM(R.out, g.coeffs()); return true; }
+    if (r.op == "ctor_taa" && a.size() == 7) {
+      G g(Eigen::Vector3d(a[0], a[1], a[2]), Eigen::AngleAxisd(a[3], Eigen::Vector3d(a[4], a[5], a[6])));
+      pushM(R.out, g.coeffs()); return true;
+    }
+    if (r.op == "ctor_tso3" && a.size() == 7) {
+      Operand<manif::SO3d, 'o'> q(a.data() + 3);
+      G g(Eigen::Vector3d(a[0], a[1], a[2]), q.get()); pushM(R.out, g.coeffs()); return true;
+    }
+    if (r.op == "ctor_iso" && a.size() == 16) {
+      Eigen::Transform<double, 3, Eigen::Isometry> h;
+      for (int i = 0; i < 4; ++i) for (int j = 0; j < 4; ++j) h.matrix()(i, j) = a[4 * i + j];
+      G g(h); pushM(R.out, g.coeffs()); return true;
+    }
+    if (r.op == "set_quat" && a.size() == 11) {
+      Operand<G, 'o'> x(a.data());
+      x.mut().quat(Eigen::Quaterniond(a[10], a[7], a[8], a[9]));
+      pushM(R.out, x.get().coeffs()); return true;
+    }
+    if (r.op == "accessors" && a.size() == 7) {
+      Operand<G, 'o'> x(a.data());
+      R.out.push_back(x.get().x()); R.out.push_back(x.get().y()); R.out.push_back(x.get().z());
+      pushM(R.out, x.get().translation()); pushM(R.out, x.get().quat().coeffs());
+      pushM(R.out, x.get().isometry().matrix()); pushM(R.out, x.get().asSO3().coeffs());
+      return true;
+    }
+    return false;
+  }
+};
+void run_SE3(const Req& r, Resp& R) { run<manif::SE3d>(r, R); }
+}
